@@ -1036,6 +1036,20 @@ class Interp:
             return self.resolve_iterable(self.call(it.fields["__iter__"], []))
         if isinstance(it, SObj) and it.cls is not None:
             f = _find_in_mro(it.cls, "__iter__")
+            import collections.abc as _abc
+
+            if f is _abc.Sequence.__dict__.get("__iter__"):
+                # collections.abc.Sequence mixin: iterate by index up to __len__ (its documented behaviour)
+                ln = _find_in_mro(it.cls, "__len__")
+                gi = _find_in_mro(it.cls, "__getitem__")
+                if isinstance(ln, types.FunctionType) and isinstance(gi, types.FunctionType):
+                    n = self.call_function(ln, [it])
+                    if is_z3(n):
+                        n = z3.simplify(n)
+                        if not z3.is_int_value(n):
+                            raise Unsupported("Sequence mixin iteration with symbolic length")
+                        n = n.as_long()
+                    return [self.call_function(gi, [it, i]) for i in range(n)]
             if isinstance(f, types.FunctionType):
                 return self.resolve_iterable(self.call_function(f, [it]))
         return it
